@@ -58,8 +58,20 @@ struct Env {
     }
 } ENV;
 
+// per-thread deterministic environment faults (decided by thread and call index, so the sequential reference sees the
+// same ones): getrandom() interrupted, mlock() refused
+unsigned g_env_fault_pct = 0;
+uint64_t g_env_calls[MAXTHREADS + 2];
+uint64_t g_eintr_fired = 0, g_mlock_refused = 0;
+bool env_fault(unsigned salt) {
+    if (!g_env_fault_pct) return false;
+    int s = tls_tid >= 0 ? tls_tid : MAXTHREADS;
+    uint64_t k = g_env_calls[s]++;
+    return mix64(mix64(0xfa017 + salt, (uint64_t) s), k) % 100 < g_env_fault_pct;
+}
 ssize_t h_getrandom(void *buf, size_t n, unsigned) {
     simrt::yield_point(simrt::Y_SYSCALL, 10);
+    if (env_fault(1)) { g_eintr_fired++; errno = (g_eintr_fired & 1) ? EINTR : EAGAIN; return -1; }
     ENV.serve(buf, n);
     simrt::on_access((uintptr_t) buf, n, true, (uintptr_t) __builtin_return_address(0)); // the kernel writes the caller's buffer
     return (ssize_t) n;
@@ -153,7 +165,11 @@ int h_munmap(void *addr, size_t len) {
     return rc;
 }
 int h_mprotect(void *a, size_t l, int p) { simrt::yield_point(simrt::Y_SYSCALL, 25); return simos_real_mprotect(a, l, p); }
-int h_mlock(const void *, size_t) { simrt::yield_point(simrt::Y_SYSCALL, 26); return 0; }
+int h_mlock(const void *, size_t) {
+    simrt::yield_point(simrt::Y_SYSCALL, 26);
+    if (env_fault(2)) { g_mlock_refused++; errno = ENOMEM; return -1; }
+    return 0;
+}
 int h_munlock(const void *, size_t) { return 0; }
 int h_madvise(void *, size_t, int) { return 0; }
 
@@ -522,6 +538,7 @@ struct PlanT {
     unsigned pct_depth = 2;
     bool preinit = false; // main calls sodium_init before the threads start (the "after initialisation" clause on its own)
     bool inline_main = false;  // thread 0 is the main thread; the others come into existence when first scheduled
+    unsigned env_fault_pct = 0; // getrandom EINTR/EAGAIN, mlock ENOMEM (per-thread deterministic)
     bool sysconf_fails = false; // environment fault: sysconf(_SC_PAGESIZE) fails inside sodium_init (the library falls back to its default)
     std::vector<std::pair<uint64_t, int>> sched; // strategy "explicit": deviations (decision index, thread) from run-to-completion order
     std::vector<Op> ops;
@@ -597,6 +614,7 @@ Outcome run_plan(const PlanT &p, int strategy, const std::vector<int> &seq_order
     for (auto &o : p.ops) g_thread_ops[(size_t) (o.thread % p.nthreads)].push_back(o.op);
     ENV.reset(mix64(p.content_seed, 0xe27));
     g_sysconf_fails = p.sysconf_fails; g_sysconf_failed = 0;
+    g_env_fault_pct = p.env_fault_pct; memset(g_env_calls, 0, sizeof g_env_calls); g_eintr_fired = g_mlock_refused = 0;
     g_script_seed = mix64(p.content_seed, 0x5c21); memset(g_script_off, 0, sizeof g_script_off);
     if (p.rng == R_INTERNAL) randombytes_set_implementation(&randombytes_internal_implementation);
     else if (p.rng == R_SCRIPTED) randombytes_set_implementation(&g_scripted_mt);
@@ -664,6 +682,7 @@ struct C19 {
         p.preinit = k.chance(1, 5);
         p.inline_main = !p.preinit && k.chance(1, 2);
         p.sysconf_fails = k.chance(1, 8);
+        p.env_fault_pct = k.chance(1, 2) ? 0 : (unsigned) k.range(5, 40);
         size_t per_thread_max = p.nthreads > 8 ? 3 : p.nthreads > 4 ? 6 : (thorough ? 12 : 8);
         for (int t = 0; t < p.nthreads; t++) {
             size_t n = (size_t) o.below(per_thread_max + 1);
@@ -684,7 +703,7 @@ struct C19 {
     static Json to_json(const Plan &p) {
         Json j = Json::object();
         j["knobs"] = p.pk; j["content_seed"] = p.content_seed; j["sched_seed"] = p.sched_seed; j["threads"] = p.nthreads;
-        j["strategy"] = simrt::strategy_name[p.strategy]; j["pct_depth"] = p.pct_depth; j["rng"] = rng_name[p.rng]; j["preinit"] = p.preinit; j["inline_main"] = p.inline_main; j["sysconf_fails"] = p.sysconf_fails;
+        j["strategy"] = simrt::strategy_name[p.strategy]; j["pct_depth"] = p.pct_depth; j["rng"] = rng_name[p.rng]; j["preinit"] = p.preinit; j["inline_main"] = p.inline_main; j["sysconf_fails"] = p.sysconf_fails; j["env_fault_pct"] = p.env_fault_pct;
         if (p.strategy == simrt::S_TRACE) {
             Json sc = Json::array();
             for (auto &d : p.sched) { Json e = Json::array(); e.push(d.first); e.push(d.second); sc.push(e); }
@@ -703,7 +722,7 @@ struct C19 {
         for (int i = 0; i < simrt::S_NSTRATEGIES; i++) if (j.at("strategy").str() == simrt::strategy_name[i]) p.strategy = i;
         p.pct_depth = (unsigned) j.at("pct_depth").u64(2);
         for (int i = 0; i < 3; i++) if (j.at("rng").str() == rng_name[i]) p.rng = i;
-        p.preinit = j.at("preinit").boolean(); p.inline_main = j.at("inline_main").boolean(); p.sysconf_fails = j.at("sysconf_fails").boolean();
+        p.preinit = j.at("preinit").boolean(); p.inline_main = j.at("inline_main").boolean(); p.sysconf_fails = j.at("sysconf_fails").boolean(); p.env_fault_pct = (unsigned) j.at("env_fault_pct").u64();
         for (auto &d : j.at("schedule_deviations").a) if (d.a.size() == 2) p.sched.push_back({d.a[0].u64(), (int) d.a[1].i64()});
         for (auto &q : j.at("ops").a) {
             Op o; o.thread = (int) q.at("t").i64();
@@ -767,6 +786,8 @@ struct C19 {
         res.count(std::string("knob.preinit=") + (p.preinit ? "yes" : "no"));
         res.count(std::string("knob.inline_main=") + (p.inline_main ? "yes" : "no"));
         if (g_sysconf_failed) res.count("fault.sysconf_pagesize_failed", g_sysconf_failed);
+        if (g_eintr_fired) res.count("fault.getrandom_eintr_eagain", g_eintr_fired);
+        if (g_mlock_refused) res.count("fault.mlock_refused", g_mlock_refused);
         if (RT.lazily_created) res.count("probe.threads_created_when_first_scheduled", RT.lazily_created);
         if (RT.created_inside_marked) res.count("fault.thread_created_while_creator_inside_sodium_init", RT.created_inside_marked);
         res.count(std::string("knob.cpu_disable=") + cpu_mask_name((unsigned) p.pk.at("cpu_disable").u64()));
@@ -885,6 +906,7 @@ struct C19 {
         if (p.rng != R_DEFAULT) { Plan c = p; c.rng = R_DEFAULT; out.push_back(c); }
         if (p.inline_main) { Plan c = p; c.inline_main = false; out.push_back(c); }
         if (p.sysconf_fails) { Plan c = p; c.sysconf_fails = false; out.push_back(c); }
+        if (p.env_fault_pct) { Plan c = p; c.env_fault_pct = 0; out.push_back(c); }
         if (p.strategy != simrt::S_TRACE && p.sched_seed > 3) for (uint64_t s = 1; s <= 3; s++) { Plan c = p; c.sched_seed = s; out.push_back(c); }
         return out;
     }
